@@ -1,7 +1,7 @@
 //! Adapters of the pallas-network (net1) mini-protocol agents for the C23 harness: for each agent
 //! its public low-level calls, its high-level methods as sequences of Send/Recv steps, and
 //! representative payloads for every message variant.
-use crate::c23::{Agent, Ctx, OpDef, OpOut, Seen, Step};
+use crate::c23::{corrupt, Agent, BadDef, Ctx, Next, OpDef, OpOut, Seen, Step};
 use crate::spec::{self, Proto, Role};
 use pallas_codec::minicbor;
 use pallas_codec::utils::AnyCbor;
@@ -10,10 +10,14 @@ use pallas_network::miniprotocols::{
     txmonitor as tm, txsubmission as txs, Point,
 };
 use pallas_network::multiplexer::AgentChannel;
+use pallas_codec::utils::TagWrap;
+use pallas_network::miniprotocols::localstate::queries_v16 as q;
+use pallas_network::miniprotocols::localtxsubmission::SMaybe;
+use std::collections::BTreeSet;
 use std::fmt::Debug;
 use std::marker::PhantomData;
 
-use Step::{Recv, Send};
+use Step::{Recv, RecvMap, Send};
 
 fn out<T, E: Debug>(r: Result<T, E>) -> OpOut {
     match r {
@@ -31,11 +35,50 @@ fn pt() -> Point {
 }
 
 const fn op(name: &'static str, steps: &'static [Step], from: &'static [&'static str]) -> OpDef {
-    OpDef { name, steps, from, only_from: false }
+    OpDef { name, steps, from, only_from: false, reactive: false }
 }
 
 const fn op_only(name: &'static str, steps: &'static [Step], from: &'static [&'static str]) -> OpDef {
-    OpDef { name, steps, from, only_from: true }
+    OpDef { name, steps, from, only_from: true, reactive: false }
+}
+
+/// the peer can only answer after it has seen what the agent sends in the same call
+const fn op_reactive(name: &'static str, steps: &'static [Step], from: &'static [&'static str]) -> OpDef {
+    OpDef { name, steps, from, only_from: false, reactive: true }
+}
+
+/// `[label, item]` built with the independent CBOR kit
+fn two(label: u64, item: pvkit::cborx::Node) -> Vec<u8> {
+    use pvkit::cborx;
+    cborx::write(&cborx::array(vec![cborx::uint(label), item]))
+}
+
+/// observers of an agent that publishes `is_done()` and `has_agency()`
+macro_rules! observers {
+    (both) => {
+        fn has_agency(&self) -> Option<bool> {
+            Some(self.0.has_agency())
+        }
+        fn is_done(&self) -> Option<bool> {
+            Some(self.0.is_done())
+        }
+    };
+    (done) => {
+        fn has_agency(&self) -> Option<bool> {
+            None // private
+        }
+        fn is_done(&self) -> Option<bool> {
+            Some(self.0.is_done())
+        }
+    };
+    (none) => {
+        fn has_agency(&self) -> Option<bool> {
+            None // private
+        }
+        fn is_done(&self) -> Option<bool> {
+            None // not offered
+        }
+    };
 }
 
 macro_rules! codec_fns {
@@ -67,6 +110,8 @@ pub trait HsFlavour: 'static {
     type D: Debug + Clone + PartialEq + minicbor::Encode<()> + for<'b> minicbor::Decode<'b, ()>;
     const N2N: bool;
     fn data() -> Self::D;
+    /// version data of another network
+    fn other_data() -> Self::D;
 }
 pub struct N2N;
 pub struct N2C;
@@ -76,12 +121,18 @@ impl HsFlavour for N2N {
     fn data() -> Self::D {
         hs::n2n::VersionData::new(764824073, false, Some(0), Some(false))
     }
+    fn other_data() -> Self::D {
+        hs::n2n::VersionData::new(1, false, Some(0), Some(false))
+    }
 }
 impl HsFlavour for N2C {
     type D = hs::n2c::VersionData;
     const N2N: bool = false;
     fn data() -> Self::D {
         hs::n2c::VersionData::new(764824073, Some(false))
+    }
+    fn other_data() -> Self::D {
+        hs::n2c::VersionData::new(1, Some(false))
     }
 }
 
@@ -108,6 +159,18 @@ fn hs_seen<D: Debug + Clone>(m: &hs::Message<D>) -> Seen {
     })
 }
 
+/// handshake content that must be refused: version data that is a text string, a refuse reason with an
+/// unknown tag (CDDL: refuseReason = [0, [*versionNumber]] / [1, versionNumber, tstr] / [2, versionNumber, tstr])
+fn hs_bad<F: HsFlavour>(kind: &str, variant: &str, ctx: &Ctx) -> Vec<u8> {
+    use pvkit::cborx::{array, map, text, uint, write};
+    match (kind, variant) {
+        ("Accept", "version-data") => write(&array(vec![uint(1), uint(14), text("bad")])),
+        ("Refuse", "reason-tag") => write(&array(vec![uint(2), array(vec![uint(9), uint(14), text("x")])])),
+        ("Propose", "version-data") => two(0, map(vec![(uint(13), text("bad"))])),
+        _ => corrupt(&minicbor::to_vec(&hs_build::<F>(kind, ctx)).expect("harness message encodes"), variant),
+    }
+}
+
 fn hs_state(s: &hs::State) -> &'static str {
     match s {
         hs::State::Propose => "Propose",
@@ -130,6 +193,16 @@ impl<F: HsFlavour> Agent for HsClient<F> {
         op("recv_while_confirm", &[Recv], &["Confirm"]),
         op("handshake", &[Send("Propose"), Recv], &[]),
     ];
+    const METHODS: &'static [&'static str] =
+        &["state", "is_done", "has_agency", "send_message", "recv_message", "send_propose", "recv_while_confirm", "handshake"];
+    const SOURCES: &'static [(&'static str, bool)] = &[("pallas-network/src/miniprotocols/handshake/client.rs", false)];
+    const BAD: &'static [BadDef] = &[
+        ("Accept", "field1-type", false),
+        ("Accept", "version-data", false),
+        ("Refuse", "field1-type", false),
+        ("Refuse", "reason-tag", false),
+        ("QueryReply", "field1-type", false),
+    ];
     fn proto() -> &'static Proto {
         &spec::HANDSHAKE
     }
@@ -138,6 +211,10 @@ impl<F: HsFlavour> Agent for HsClient<F> {
     }
     fn state(&self) -> &'static str {
         hs_state(self.0.state())
+    }
+    observers!(both);
+    fn bad_payload(kind: &str, variant: &str, ctx: &Ctx) -> Vec<u8> {
+        hs_bad::<F>(kind, variant, ctx)
     }
     fn encode(kind: &str, ctx: &Ctx) -> Vec<u8> {
         minicbor::to_vec(&hs_build::<F>(kind, ctx)).expect("harness message encodes")
@@ -171,7 +248,16 @@ impl<F: HsFlavour> Agent for HsServer<F> {
         op("receive_proposed_versions", &[Recv], &["Propose"]),
         op("accept_version", &[Send("Accept")], &[]),
         op("refuse", &[Send("Refuse")], &[]),
+        // the composite: the peer's proposal is the harness table {13, 14}; the responder's own table decides the answer
+        op("handshake(common-version)", &[Recv, Send("Accept")], &[]),
+        op("handshake(other-data)", &[Recv, Send("Refuse")], &[]),
+        op("handshake(no-common-version)", &[Recv, Send("Refuse")], &[]),
     ];
+    const METHODS: &'static [&'static str] = &[
+        "state", "is_done", "has_agency", "send_message", "recv_message", "receive_proposed_versions", "accept_version", "refuse", "handshake",
+    ];
+    const SOURCES: &'static [(&'static str, bool)] = &[("pallas-network/src/miniprotocols/handshake/server.rs", false)];
+    const BAD: &'static [BadDef] = &[("Propose", "field1-type", false), ("Propose", "version-data", false)];
     fn proto() -> &'static Proto {
         &spec::HANDSHAKE
     }
@@ -180,6 +266,10 @@ impl<F: HsFlavour> Agent for HsServer<F> {
     }
     fn state(&self) -> &'static str {
         hs_state(self.0.state())
+    }
+    observers!(both);
+    fn bad_payload(kind: &str, variant: &str, ctx: &Ctx) -> Vec<u8> {
+        hs_bad::<F>(kind, variant, ctx)
     }
     fn encode(kind: &str, ctx: &Ctx) -> Vec<u8> {
         minicbor::to_vec(&hs_build::<F>(kind, ctx)).expect("harness message encodes")
@@ -198,6 +288,9 @@ impl<F: HsFlavour> Agent for HsServer<F> {
             "receive_proposed_versions" => out(self.0.receive_proposed_versions().await),
             "accept_version" => out(self.0.accept_version(14, F::data()).await),
             "refuse" => out(self.0.refuse(hs::RefuseReason::Refused(14, "no".into())).await),
+            "handshake(common-version)" => out(self.0.handshake(hs_table::<F>()).await),
+            "handshake(other-data)" => out(self.0.handshake(hs::VersionTable { values: [(14u64, F::other_data())].into_iter().collect() }).await),
+            "handshake(no-common-version)" => out(self.0.handshake(hs::VersionTable { values: [(7u64, F::data())].into_iter().collect() }).await),
             n => panic!("harness: unknown op {n}"),
         }
     }
@@ -289,6 +382,20 @@ impl<K: CsContent> Agent for CsClient<K> {
         op_only("request_or_await_next@idle", &[Send("RequestNext"), Recv], &["Idle"]),
         op_only("request_or_await_next@wait", &[Recv], &["MustReply"]),
         op("send_done", &[Send("Done")], &[]),
+        // two find-intersect rounds: for the origin (to learn the tip), then for the tip
+        op("intersect_tip", &[Send("FindIntersect"), Recv, Send("FindIntersect"), Recv], &[]),
+    ];
+    const METHODS: &'static [&'static str] = &[
+        "state", "is_done", "has_agency", "send_message", "recv_message", "send_find_intersect", "recv_intersect_response", "find_intersect",
+        "send_request_next", "recv_while_can_await", "recv_while_must_reply", "request_next", "request_or_await_next", "intersect_origin",
+        "intersect_tip", "send_done",
+    ];
+    const SOURCES: &'static [(&'static str, bool)] = &[("pallas-network/src/miniprotocols/chainsync/client.rs", false)];
+    const BAD: &'static [BadDef] = &[
+        ("RollForward", "field1-type", false),
+        ("RollBackward", "field1-type", false),
+        ("IntersectFound", "field1-type", false),
+        ("IntersectNotFound", "field1-type", false),
     ];
     fn proto() -> &'static Proto {
         &spec::CHAINSYNC
@@ -299,6 +406,7 @@ impl<K: CsContent> Agent for CsClient<K> {
     fn state(&self) -> &'static str {
         cs_state(self.0.state())
     }
+    observers!(both);
     fn encode(kind: &str, ctx: &Ctx) -> Vec<u8> {
         minicbor::to_vec(&cs_build::<K>(kind, ctx)).expect("harness message encodes")
     }
@@ -318,6 +426,10 @@ impl<K: CsContent> Agent for CsClient<K> {
             "find_intersect" => out(self.0.find_intersect(vec![pt()]).await),
             // "no intersection" is reported as an error value after the legal exchange
             "intersect_origin" => match self.0.intersect_origin().await {
+                Err(cs::ClientError::IntersectionNotFound) => OpOut::Accepted,
+                r => out(r),
+            },
+            "intersect_tip" => match self.0.intersect_tip().await {
                 Err(cs::ClientError::IntersectionNotFound) => OpOut::Accepted,
                 r => out(r),
             },
@@ -346,6 +458,12 @@ impl<K: CsContent> Agent for CsServer<K> {
         op("send_roll_backward", &[Send("RollBackward")], &[]),
         op("send_await_reply", &[Send("AwaitReply")], &[]),
     ];
+    const METHODS: &'static [&'static str] = &[
+        "state", "is_done", "has_agency", "send_message", "recv_while_idle", "send_intersect_not_found", "send_intersect_found",
+        "send_roll_forward", "send_roll_backward", "send_await_reply",
+    ];
+    const SOURCES: &'static [(&'static str, bool)] = &[("pallas-network/src/miniprotocols/chainsync/server.rs", false)];
+    const BAD: &'static [BadDef] = &[("FindIntersect", "field1-type", false)];
     fn proto() -> &'static Proto {
         &spec::CHAINSYNC
     }
@@ -355,6 +473,7 @@ impl<K: CsContent> Agent for CsServer<K> {
     fn state(&self) -> &'static str {
         cs_state(self.0.state())
     }
+    observers!(both);
     fn encode(kind: &str, ctx: &Ctx) -> Vec<u8> {
         minicbor::to_vec(&cs_build::<K>(kind, ctx)).expect("harness message encodes")
     }
@@ -427,7 +546,35 @@ impl Agent for BfClient {
         op("request_range", &[Send("RequestRange"), Recv], &[]),
         op("recv_while_streaming", &[Recv], &["Streaming"]),
         op("send_done", &[Send("ClientDone")], &[]),
+        // exactly one block: NoBlocks ends the call (error value NoBlocks); an empty batch or a second block are
+        // spec-legal messages the method has no use for
+        op(
+            "fetch_single",
+            &[
+                Send("RequestRange"),
+                RecvMap(&[("StartBatch", Next::Cont), ("NoBlocks", Next::Stop)]),
+                RecvMap(&[("Block", Next::Cont), ("BatchDone", Next::Refuse)]),
+                RecvMap(&[("BatchDone", Next::Stop), ("Block", Next::Refuse)]),
+            ],
+            &[],
+        ),
+        // collects blocks until BatchDone
+        op(
+            "fetch_range",
+            &[
+                Send("RequestRange"),
+                RecvMap(&[("StartBatch", Next::Cont), ("NoBlocks", Next::Stop)]),
+                RecvMap(&[("Block", Next::Again), ("BatchDone", Next::Stop)]),
+            ],
+            &[],
+        ),
     ];
+    const METHODS: &'static [&'static str] = &[
+        "state", "is_done", "send_message", "recv_message", "send_request_range", "recv_while_busy", "request_range", "recv_while_streaming",
+        "fetch_single", "fetch_range", "send_done",
+    ];
+    const SOURCES: &'static [(&'static str, bool)] = &[("pallas-network/src/miniprotocols/blockfetch/client.rs", false)];
+    const BAD: &'static [BadDef] = &[("Block", "field1-type", false)];
     fn proto() -> &'static Proto {
         &spec::BLOCKFETCH
     }
@@ -437,6 +584,7 @@ impl Agent for BfClient {
     fn state(&self) -> &'static str {
         bf_state(self.0.state())
     }
+    observers!(done);
     codec_fns!(bf::Message, bf_build, bf_seen);
     raw_fns!(bf_build, bf_seen);
     async fn op(&mut self, name: &str, _ctx: &Ctx) -> OpOut {
@@ -446,6 +594,15 @@ impl Agent for BfClient {
             "request_range" => out(self.0.request_range((pt(), pt())).await),
             "recv_while_streaming" => out(self.0.recv_while_streaming().await),
             "send_done" => out(self.0.send_done().await),
+            // "no blocks" is reported as an error value after the legal exchange
+            "fetch_single" => match self.0.fetch_single(pt()).await {
+                Err(bf::ClientError::NoBlocks) => OpOut::Accepted,
+                r => out(r),
+            },
+            "fetch_range" => match self.0.fetch_range((pt(), pt())).await {
+                Err(bf::ClientError::NoBlocks) => OpOut::Accepted,
+                r => out(r),
+            },
             n => panic!("harness: unknown op {n}"),
         }
     }
@@ -466,6 +623,12 @@ impl Agent for BfServer {
         op("send_block_range(empty)", &[Send("NoBlocks")], &[]),
         op("send_block_range(2)", &[Send("StartBatch"), Send("Block"), Send("Block"), Send("BatchDone")], &[]),
     ];
+    const METHODS: &'static [&'static str] = &[
+        "state", "is_done", "send_message", "recv_message", "send_start_batch", "send_no_blocks", "send_block", "send_batch_done",
+        "recv_while_idle", "send_block_range",
+    ];
+    const SOURCES: &'static [(&'static str, bool)] = &[("pallas-network/src/miniprotocols/blockfetch/server.rs", false)];
+    const BAD: &'static [BadDef] = &[("RequestRange", "field1-type", false)];
     fn proto() -> &'static Proto {
         &spec::BLOCKFETCH
     }
@@ -475,6 +638,7 @@ impl Agent for BfServer {
     fn state(&self) -> &'static str {
         bf_state(self.0.state())
     }
+    observers!(done);
     codec_fns!(bf::Message, bf_build, bf_seen);
     raw_fns!(bf_build, bf_seen);
     async fn op(&mut self, name: &str, _ctx: &Ctx) -> OpOut {
@@ -550,6 +714,14 @@ impl Agent for TxsClient {
         op("next_request", &[Recv], &["Idle"]),
         op("send_done", &[Send("Done")], &[]),
     ];
+    const METHODS: &'static [&'static str] =
+        &["state", "is_done", "send_message", "recv_message", "send_init", "reply_tx_ids", "reply_txs", "next_request", "send_done"];
+    const SOURCES: &'static [(&'static str, bool)] = &[("pallas-network/src/miniprotocols/txsubmission/client.rs", false)];
+    const BAD: &'static [BadDef] = &[
+        ("RequestTxIdsBlocking", "field1-type", false),
+        ("RequestTxIdsNonBlocking", "field1-type", false),
+        ("RequestTxs", "field1-type", false),
+    ];
     fn proto() -> &'static Proto {
         &spec::TXSUBMISSION
     }
@@ -559,6 +731,7 @@ impl Agent for TxsClient {
     fn state(&self) -> &'static str {
         txs_state(self.0.state())
     }
+    observers!(done);
     codec_fns!(TxsMsg, txs_build, txs_seen);
     raw_fns!(txs_build, txs_seen);
     async fn op(&mut self, name: &str, _ctx: &Ctx) -> OpOut {
@@ -586,6 +759,11 @@ impl Agent for TxsServer {
         op("request_txs", &[Send("RequestTxs")], &[]),
         op("receive_next_reply", &[Recv], &["TxIdsBlocking", "TxIdsNonBlocking", "Txs"]),
     ];
+    const METHODS: &'static [&'static str] = &[
+        "state", "is_done", "send_message", "recv_message", "wait_for_init", "acknowledge_and_request_tx_ids", "request_txs", "receive_next_reply",
+    ];
+    const SOURCES: &'static [(&'static str, bool)] = &[("pallas-network/src/miniprotocols/txsubmission/server.rs", false)];
+    const BAD: &'static [BadDef] = &[("ReplyTxIds", "field1-type", false), ("ReplyTxs", "field1-type", false)];
     fn proto() -> &'static Proto {
         &spec::TXSUBMISSION
     }
@@ -595,6 +773,7 @@ impl Agent for TxsServer {
     fn state(&self) -> &'static str {
         txs_state(self.0.state())
     }
+    observers!(done);
     codec_fns!(TxsMsg, txs_build, txs_seen);
     raw_fns!(txs_build, txs_seen);
     async fn op(&mut self, name: &str, _ctx: &Ctx) -> OpOut {
@@ -627,6 +806,20 @@ fn ka_seen(m: &ka::Message) -> Seen {
         ka::Message::Done => seen("Done"),
     }
 }
+/// keep-alive content that must be refused: a reply with another cookie than the one requested
+/// (`cookie+n`), a cookie that does not fit the spec's word16
+fn ka_bad(kind: &str, variant: &str, ctx: &Ctx) -> Vec<u8> {
+    let label = if kind == "KeepAlive" { 0 } else { 1 };
+    match variant {
+        "cookie-range" => two(label, pvkit::cborx::uint(65536)),
+        v if v.starts_with("cookie+") => {
+            let n: u16 = v["cookie+".len()..].parse().expect("harness: cookie offset");
+            minicbor::to_vec(ka::Message::ResponseKeepAlive(ctx.cookie.wrapping_add(n))).expect("harness message encodes")
+        }
+        v => corrupt(&minicbor::to_vec(ka_build(kind, ctx)).expect("harness message encodes"), v),
+    }
+}
+
 fn ka_state(s: &ka::State) -> &'static str {
     match s {
         ka::State::Client => "Client",
@@ -647,6 +840,23 @@ impl Agent for KaClient {
     const OPS: &'static [OpDef] = &[
         op("send_keepalive_request", &[Send("KeepAlive")], &[]),
         op("recv_keepalive_response", &[Recv], &["Server"]),
+        // the cookie is drawn inside the call: the peer can only echo it once the request is on the wire
+        op_reactive("keepalive_roundtrip", &[Send("KeepAlive"), Recv], &[]),
+    ];
+    const METHODS: &'static [&'static str] = &[
+        "state", "is_done", "send_message", "recv_message", "send_keepalive_request", "recv_keepalive_response", "keepalive_roundtrip",
+    ];
+    const SOURCES: &'static [(&'static str, bool)] = &[("pallas-network/src/miniprotocols/keepalive/client.rs", false)];
+    // the low-level receive hands the message over without looking at the cookie: cookie cases only through the methods
+    const BAD: &'static [BadDef] = &[
+        ("ResponseKeepAlive", "cookie+1", true),
+        ("ResponseKeepAlive", "cookie+2", true),
+        ("ResponseKeepAlive", "cookie+255", true),
+        ("ResponseKeepAlive", "cookie+256", true),
+        ("ResponseKeepAlive", "cookie+32768", true),
+        ("ResponseKeepAlive", "cookie+65535", true),
+        ("ResponseKeepAlive", "cookie-range", false),
+        ("ResponseKeepAlive", "field1-type", false),
     ];
     fn proto() -> &'static Proto {
         &spec::KEEPALIVE
@@ -657,12 +867,17 @@ impl Agent for KaClient {
     fn state(&self) -> &'static str {
         ka_state(self.0.state())
     }
+    observers!(done);
+    fn bad_payload(kind: &str, variant: &str, ctx: &Ctx) -> Vec<u8> {
+        ka_bad(kind, variant, ctx)
+    }
     codec_fns!(ka::Message, ka_build, ka_seen);
     raw_fns!(ka_build, ka_seen);
     async fn op(&mut self, name: &str, _ctx: &Ctx) -> OpOut {
         match name {
             "send_keepalive_request" => out(self.0.send_keepalive_request().await),
             "recv_keepalive_response" => out(self.0.recv_keepalive_response().await),
+            "keepalive_roundtrip" => out(self.0.keepalive_roundtrip().await),
             n => panic!("harness: unknown op {n}"),
         }
     }
@@ -677,7 +892,14 @@ impl Agent for KaServer {
     const OPS: &'static [OpDef] = &[
         op("recv_keepalive_request", &[Recv], &["Client"]),
         op("send_keepalive_response", &[Send("ResponseKeepAlive")], &[]),
+        // after the client's Done there is nothing to answer
+        op("keepalive_roundtrip", &[RecvMap(&[("KeepAlive", Next::Cont), ("Done", Next::Stop)]), Send("ResponseKeepAlive")], &[]),
     ];
+    const METHODS: &'static [&'static str] = &[
+        "state", "is_done", "send_message", "recv_message", "recv_keepalive_request", "send_keepalive_response", "keepalive_roundtrip",
+    ];
+    const SOURCES: &'static [(&'static str, bool)] = &[("pallas-network/src/miniprotocols/keepalive/server.rs", false)];
+    const BAD: &'static [BadDef] = &[("KeepAlive", "field1-type", false), ("KeepAlive", "cookie-range", false)];
     fn proto() -> &'static Proto {
         &spec::KEEPALIVE
     }
@@ -687,12 +909,17 @@ impl Agent for KaServer {
     fn state(&self) -> &'static str {
         ka_state(self.0.state())
     }
+    observers!(done);
+    fn bad_payload(kind: &str, variant: &str, ctx: &Ctx) -> Vec<u8> {
+        ka_bad(kind, variant, ctx)
+    }
     codec_fns!(ka::Message, ka_build, ka_seen);
     raw_fns!(ka_build, ka_seen);
     async fn op(&mut self, name: &str, _ctx: &Ctx) -> OpOut {
         match name {
             "recv_keepalive_request" => out(self.0.recv_keepalive_request().await),
             "send_keepalive_response" => out(self.0.send_keepalive_response().await),
+            "keepalive_roundtrip" => out(self.0.keepalive_roundtrip().await),
             n => panic!("harness: unknown op {n}"),
         }
     }
@@ -737,6 +964,10 @@ impl Agent for PsClient {
         op("recv_peer_addresses", &[Recv], &["Busy"]),
         op("send_done", &[Send("Done")], &[]),
     ];
+    const METHODS: &'static [&'static str] =
+        &["state", "is_done", "has_agency", "send_message", "recv_message", "send_share_request", "recv_peer_addresses", "send_done"];
+    const SOURCES: &'static [(&'static str, bool)] = &[("pallas-network/src/miniprotocols/peersharing/client.rs", false)];
+    const BAD: &'static [BadDef] = &[("SharePeers", "field1-type", false)];
     fn proto() -> &'static Proto {
         &spec::PEERSHARING
     }
@@ -746,6 +977,7 @@ impl Agent for PsClient {
     fn state(&self) -> &'static str {
         ps_state(self.0.state())
     }
+    observers!(both);
     codec_fns!(ps::Message, ps_build, ps_seen);
     raw_fns!(ps_build, ps_seen);
     async fn op(&mut self, name: &str, _ctx: &Ctx) -> OpOut {
@@ -768,6 +1000,11 @@ impl Agent for PsServer {
         op("recv_share_request", &[Recv], &["Idle"]),
         op("send_peer_addresses", &[Send("SharePeers")], &[]),
     ];
+    const METHODS: &'static [&'static str] =
+        &["state", "is_done", "send_message", "recv_message", "recv_share_request", "send_peer_addresses"];
+    const SOURCES: &'static [(&'static str, bool)] = &[("pallas-network/src/miniprotocols/peersharing/server.rs", false)];
+    // the amount is a word8 in the spec
+    const BAD: &'static [BadDef] = &[("ShareRequest", "field1-type", false), ("ShareRequest", "amount-range", false)];
     fn proto() -> &'static Proto {
         &spec::PEERSHARING
     }
@@ -776,6 +1013,13 @@ impl Agent for PsServer {
     }
     fn state(&self) -> &'static str {
         ps_state(self.0.state())
+    }
+    observers!(done);
+    fn bad_payload(kind: &str, variant: &str, ctx: &Ctx) -> Vec<u8> {
+        match variant {
+            "amount-range" => two(0, pvkit::cborx::uint(256)),
+            v => corrupt(&Self::encode(kind, ctx), v),
+        }
     }
     codec_fns!(ps::Message, ps_build, ps_seen);
     raw_fns!(ps_build, ps_seen);
@@ -840,6 +1084,17 @@ fn ls_acq<T>(r: Result<T, ls::ClientError>) -> OpOut {
     }
 }
 
+/// a typed query reports a result it cannot decode as an error value after the (legal) exchange
+fn ls_typed<T>(r: Result<T, ls::ClientError>) -> OpOut {
+    match r {
+        Err(ls::ClientError::InvalidCbor(_)) => OpOut::Accepted,
+        r => out(r),
+    }
+}
+
+const QUERY: &[Step] = &[Send("Query"), Recv];
+const ERA: u16 = 6;
+
 impl Agent for LsClient {
     const NAME: &'static str = "localstate";
     const ROLE: Role = Role::Client;
@@ -856,7 +1111,55 @@ impl Agent for LsClient {
         op("send_query", &[Send("Query")], &[]),
         op("recv_while_querying", &[Recv], &["Querying"]),
         op("query_any", &[Send("Query"), Recv], &[]),
+        // the typed query and the query helpers of queries_v16: one Query / Result exchange each
+        op("query", QUERY, &[]),
+        op("get_chain_point", QUERY, &[]),
+        op("get_current_era", QUERY, &[]),
+        op("get_system_start", QUERY, &[]),
+        op("get_chain_block_no", QUERY, &[]),
+        op("get_cbor", QUERY, &[]),
+        op("get_stake_snapshots", QUERY, &[]),
+        op("get_utxo_by_address", QUERY, &[]),
+        op("get_stake_pool_params", QUERY, &[]),
+        op("get_pool_state", QUERY, &[]),
+        op("get_pool_distr", QUERY, &[]),
+        op("get_non_myopic_member_rewards", QUERY, &[]),
+        op("get_filtered_delegations_rewards", QUERY, &[]),
+        op("get_utxo_by_txin", QUERY, &[]),
+        op("get_stake_deleg_deposits", QUERY, &[]),
+        op("get_drep_state", QUERY, &[]),
+        op("get_drep_stake_distr", QUERY, &[]),
+        op("get_filtered_vote_delegatees", QUERY, &[]),
+        op("get_spo_stake_distr", QUERY, &[]),
+        op("get_proposals", QUERY, &[]),
+        op("get_committee_members_state", QUERY, &[]),
+        op("get_ledger_peer_snapshot", QUERY, &[]),
+        op("get_pool_distr_v2", QUERY, &[]),
+        op("get_dreps_delegations", QUERY, &[]),
+        op("get_current_pparams", QUERY, &[]),
+        op("get_block_epoch_number", QUERY, &[]),
+        op("get_stake_distribution", QUERY, &[]),
+        op("get_genesis_config", QUERY, &[]),
+        op("get_utxo_whole", QUERY, &[]),
+        op("get_constitution", QUERY, &[]),
+        op("get_gov_state", QUERY, &[]),
+        op("get_account_state", QUERY, &[]),
+        op("get_future_protocol_params", QUERY, &[]),
+        op("get_ratify_state", QUERY, &[]),
+        op("get_big_ledger_snapshot", QUERY, &[]),
+        op("get_proposed_pparams_updates", QUERY, &[]),
+        op("get_stake_distribution_v2", QUERY, &[]),
     ];
+    const METHODS: &'static [&'static str] = &[
+        "state", "is_done", "send_message", "recv_message", "send_acquire", "send_reacquire", "send_release", "send_done", "recv_while_acquiring",
+        "acquire", "send_query", "recv_while_querying", "query_any", "query",
+        "get_chain_point", "get_current_era", "get_system_start", "get_chain_block_no", "get_cbor", "get_stake_snapshots", "get_utxo_by_address", "get_stake_pool_params", "get_pool_state", "get_pool_distr", "get_non_myopic_member_rewards", "get_filtered_delegations_rewards", "get_utxo_by_txin", "get_stake_deleg_deposits", "get_drep_state", "get_drep_stake_distr", "get_filtered_vote_delegatees", "get_spo_stake_distr", "get_proposals", "get_committee_members_state", "get_ledger_peer_snapshot", "get_pool_distr_v2", "get_dreps_delegations", "get_current_pparams", "get_block_epoch_number", "get_stake_distribution", "get_genesis_config", "get_utxo_whole", "get_constitution", "get_gov_state", "get_account_state", "get_future_protocol_params", "get_ratify_state", "get_big_ledger_snapshot", "get_proposed_pparams_updates", "get_stake_distribution_v2",
+    ];
+    const SOURCES: &'static [(&'static str, bool)] = &[
+        ("pallas-network/src/miniprotocols/localstate/client.rs", false),
+        ("pallas-network/src/miniprotocols/localstate/queries_v16/mod.rs", true),
+    ];
+    const BAD: &'static [BadDef] = &[("Failure", "field1-type", false), ("Failure", "reason-code", false)];
     fn proto() -> &'static Proto {
         &spec::LOCALSTATE
     }
@@ -865,6 +1168,14 @@ impl Agent for LsClient {
     }
     fn state(&self) -> &'static str {
         ls_state(self.0.state())
+    }
+    observers!(done);
+    fn bad_payload(kind: &str, variant: &str, ctx: &Ctx) -> Vec<u8> {
+        match variant {
+            // CDDL: failure = 0 (point too old) / 1 (point not on chain)
+            "reason-code" => two(2, pvkit::cborx::uint(9)),
+            v => corrupt(&Self::encode(kind, ctx), v),
+        }
     }
     codec_fns!(ls::Message, ls_build, ls_seen);
     raw_fns!(ls_build, ls_seen);
@@ -879,6 +1190,43 @@ impl Agent for LsClient {
             "send_query" => out(self.0.send_query(any()).await),
             "recv_while_querying" => out(self.0.recv_while_querying().await),
             "query_any" => out(self.0.query_any(any()).await),
+            "query" => ls_typed(self.0.query::<u8, u8>(0u8).await),
+            "get_chain_point" => ls_typed(q::get_chain_point(&mut self.0).await),
+            "get_current_era" => ls_typed(q::get_current_era(&mut self.0).await),
+            "get_system_start" => ls_typed(q::get_system_start(&mut self.0).await),
+            "get_chain_block_no" => ls_typed(q::get_chain_block_no(&mut self.0).await),
+            "get_cbor" => ls_typed(q::get_cbor(&mut self.0, ERA, q::BlockQuery::GetEpochNo).await),
+            "get_stake_snapshots" => ls_typed(q::get_stake_snapshots(&mut self.0, ERA, SMaybe::None).await),
+            "get_utxo_by_address" => ls_typed(q::get_utxo_by_address(&mut self.0, ERA, vec![]).await),
+            "get_stake_pool_params" => ls_typed(q::get_stake_pool_params(&mut self.0, ERA, TagWrap::new(BTreeSet::new())).await),
+            "get_pool_state" => ls_typed(q::get_pool_state(&mut self.0, ERA, SMaybe::None).await),
+            "get_pool_distr" => ls_typed(q::get_pool_distr(&mut self.0, ERA, SMaybe::None).await),
+            "get_non_myopic_member_rewards" => ls_typed(q::get_non_myopic_member_rewards(&mut self.0, ERA, TagWrap::new(BTreeSet::new())).await),
+            "get_filtered_delegations_rewards" => ls_typed(q::get_filtered_delegations_rewards(&mut self.0, ERA, BTreeSet::new()).await),
+            "get_utxo_by_txin" => ls_typed(q::get_utxo_by_txin(&mut self.0, ERA, BTreeSet::new()).await),
+            "get_stake_deleg_deposits" => ls_typed(q::get_stake_deleg_deposits(&mut self.0, ERA, TagWrap::new(BTreeSet::new())).await),
+            "get_drep_state" => ls_typed(q::get_drep_state(&mut self.0, ERA, TagWrap::new(BTreeSet::new())).await),
+            "get_drep_stake_distr" => ls_typed(q::get_drep_stake_distr(&mut self.0, ERA, TagWrap::new(BTreeSet::new())).await),
+            "get_filtered_vote_delegatees" => ls_typed(q::get_filtered_vote_delegatees(&mut self.0, ERA, BTreeSet::new()).await),
+            "get_spo_stake_distr" => ls_typed(q::get_spo_stake_distr(&mut self.0, ERA, TagWrap::new(BTreeSet::new())).await),
+            "get_proposals" => ls_typed(q::get_proposals(&mut self.0, ERA, TagWrap::new(BTreeSet::new())).await),
+            "get_committee_members_state" => ls_typed(q::get_committee_members_state(&mut self.0, ERA, TagWrap::new(BTreeSet::new()), TagWrap::new(BTreeSet::new()), TagWrap::new(BTreeSet::new())).await),
+            "get_ledger_peer_snapshot" => ls_typed(q::get_ledger_peer_snapshot(&mut self.0, ERA, q::LedgerPeerSnapshotKind::Big).await),
+            "get_pool_distr_v2" => ls_typed(q::get_pool_distr_v2(&mut self.0, ERA, SMaybe::None).await),
+            "get_dreps_delegations" => ls_typed(q::get_dreps_delegations(&mut self.0, ERA, TagWrap::new(BTreeSet::new())).await),
+            "get_current_pparams" => ls_typed(q::get_current_pparams(&mut self.0, ERA).await),
+            "get_block_epoch_number" => ls_typed(q::get_block_epoch_number(&mut self.0, ERA).await),
+            "get_stake_distribution" => ls_typed(q::get_stake_distribution(&mut self.0, ERA).await),
+            "get_genesis_config" => ls_typed(q::get_genesis_config(&mut self.0, ERA).await),
+            "get_utxo_whole" => ls_typed(q::get_utxo_whole(&mut self.0, ERA).await),
+            "get_constitution" => ls_typed(q::get_constitution(&mut self.0, ERA).await),
+            "get_gov_state" => ls_typed(q::get_gov_state(&mut self.0, ERA).await),
+            "get_account_state" => ls_typed(q::get_account_state(&mut self.0, ERA).await),
+            "get_future_protocol_params" => ls_typed(q::get_future_protocol_params(&mut self.0, ERA).await),
+            "get_ratify_state" => ls_typed(q::get_ratify_state(&mut self.0, ERA).await),
+            "get_big_ledger_snapshot" => ls_typed(q::get_big_ledger_snapshot(&mut self.0, ERA).await),
+            "get_proposed_pparams_updates" => ls_typed(q::get_proposed_pparams_updates(&mut self.0, ERA).await),
+            "get_stake_distribution_v2" => ls_typed(q::get_stake_distribution_v2(&mut self.0, ERA).await),
             n => panic!("harness: unknown op {n}"),
         }
     }
@@ -897,6 +1245,12 @@ impl Agent for LsServer {
         op("recv_while_idle", &[Recv], &["Idle"]),
         op("recv_while_acquired", &[Recv], &["Acquired"]),
     ];
+    const METHODS: &'static [&'static str] = &[
+        "state", "is_done", "send_message", "recv_message", "send_failure", "send_acquired", "send_result", "recv_while_idle",
+        "recv_while_acquired",
+    ];
+    const SOURCES: &'static [(&'static str, bool)] = &[("pallas-network/src/miniprotocols/localstate/server.rs", false)];
+    const BAD: &'static [BadDef] = &[("Acquire", "field1-type", false), ("ReAcquire", "field1-type", false)];
     fn proto() -> &'static Proto {
         &spec::LOCALSTATE
     }
@@ -905,6 +1259,15 @@ impl Agent for LsServer {
     }
     fn state(&self) -> &'static str {
         ls_state(self.0.state())
+    }
+    observers!(done);
+    fn bad_payload(kind: &str, variant: &str, _ctx: &Ctx) -> Vec<u8> {
+        // the representative Acquire / ReAcquire carry no point; the corrupted ones are the forms with a point
+        let with_point = match kind {
+            "Acquire" => ls::Message::Acquire(Some(pt())),
+            _ => ls::Message::ReAcquire(Some(pt())),
+        };
+        corrupt(&minicbor::to_vec(&with_point).expect("harness message encodes"), variant)
     }
     codec_fns!(ls::Message, ls_build, ls_seen);
     raw_fns!(ls_build, ls_seen);
@@ -985,6 +1348,9 @@ impl Agent for LtClient {
         op("submit_tx", &[Send("SubmitTx"), Recv], &[]),
         op("terminate_gracefully", &[Send("Done")], &[]),
     ];
+    const METHODS: &'static [&'static str] = &["state", "send_submit_tx", "recv_submit_tx_response", "submit_tx", "terminate_gracefully"];
+    const SOURCES: &'static [(&'static str, bool)] = &[("pallas-network/src/miniprotocols/localtxsubmission/client.rs", false)];
+    const BAD: &'static [BadDef] = &[("RejectTx", "field1-type", false)];
     fn proto() -> &'static Proto {
         &spec::LOCALTXSUBMISSION
     }
@@ -994,6 +1360,7 @@ impl Agent for LtClient {
     fn state(&self) -> &'static str {
         lt_state(self.0.state())
     }
+    observers!(none);
     codec_fns!(LtMsg, lt_build, lt_seen);
     async fn raw_send(&mut self, _kind: &str, _ctx: &Ctx) -> OpOut {
         OpOut::Rejected("not public".into())
@@ -1023,6 +1390,9 @@ impl Agent for LtServer {
         op("send_submit_tx_response(accepted)", &[Send("AcceptTx")], &[]),
         op("send_submit_tx_response(rejected)", &[Send("RejectTx")], &[]),
     ];
+    const METHODS: &'static [&'static str] = &["state", "recv_next_request", "send_submit_tx_response"];
+    const SOURCES: &'static [(&'static str, bool)] = &[("pallas-network/src/miniprotocols/localtxsubmission/server.rs", false)];
+    const BAD: &'static [BadDef] = &[("SubmitTx", "field1-type", false)];
     fn proto() -> &'static Proto {
         &spec::LOCALTXSUBMISSION
     }
@@ -1032,6 +1402,7 @@ impl Agent for LtServer {
     fn state(&self) -> &'static str {
         lt_state(self.0.state())
     }
+    observers!(none);
     codec_fns!(LtMsg, lt_build, lt_seen);
     async fn raw_send(&mut self, _kind: &str, _ctx: &Ctx) -> OpOut {
         OpOut::Rejected("not public".into())
@@ -1100,6 +1471,12 @@ impl Agent for TmClient {
         op("query_size_and_capacity", &[Send("RequestSizeAndCapacity"), Recv], &[]),
         op("release", &[Send("Release")], &[]),
     ];
+    const METHODS: &'static [&'static str] = &[
+        "state", "is_done", "send_message", "recv_message", "acquire", "query_has_tx", "query_next_tx", "query_size_and_capacity", "release",
+    ];
+    const SOURCES: &'static [(&'static str, bool)] = &[("pallas-network/src/miniprotocols/txmonitor/client.rs", false)];
+    const BAD: &'static [BadDef] =
+        &[("Acquired", "field1-type", false), ("ResponseHasTx", "field1-type", false), ("ResponseSizeAndCapacity", "field1-type", false)];
     fn proto() -> &'static Proto {
         &spec::TXMONITOR
     }
@@ -1115,6 +1492,7 @@ impl Agent for TmClient {
             tm::State::Done => "Done",
         }
     }
+    observers!(done);
     codec_fns!(tm::Message, tm_build, tm_seen);
     raw_fns!(tm_build, tm_seen);
     async fn op(&mut self, name: &str, _ctx: &Ctx) -> OpOut {
